@@ -38,11 +38,19 @@ V6Spellings ==
               \cup { Join([i \in 1..8 |-> V6Tok[IF i \in S THEN 2 ELSE 1]], << 58 >>) : S \in SUBSET (1..8) }
   IN { << 91 >> \o x \o << 93 >> : x \in comp \cup full }
 
-Init == \/ kind = "v4" /\ sp \in V4Spellings
-        \/ kind = "v6" /\ sp \in V6Spellings
-Next == UNCHANGED vars
+\* The spellings are reached in two steps (a first token, then the rest) so that TLC's workers share the
+\* evaluation of the invariants: initial states are processed by a single thread.
+V4From(t) == { x \in V4Spellings : StartsWith(x, V4Tok[t]) }
+Init == kind \in {"v4", "v6"} /\ sp = << -1 >>
+Pick ==
+  /\ sp = << -1 >>
+  /\ \/ kind = "v4" /\ sp' \in V4Spellings
+     \/ kind = "v6" /\ sp' \in V6Spellings
+  /\ UNCHANGED kind
+Next == Pick
 Spec == Init /\ [][Next]_vars
 
+Picked == sp # << -1 >>
 R == ParseHost(sp, FALSE)
 
 NoLeadingZeroPieces(s) ==
@@ -51,7 +59,7 @@ NoLeadingZeroPieces(s) ==
   IN \A i \in 1..Len(ps) : Len(ps[i]) <= 4 /\ (Len(ps[i]) > 1 => ps[i][1] # 48) /\ AllOf(ps[i], LAMBDA b : IsDigit(b) \/ (b >= 97 /\ b <= 102))
 
 HostInv ==
-  R.ok =>
+  (Picked /\ R.ok) =>
     /\ (R.host.k = "ipv4" =>
           /\ IsDottedQuad(R.host.s)
           /\ LET r2 == ParseHost(R.host.s, FALSE) IN r2.ok /\ r2.host = R.host
@@ -66,7 +74,7 @@ HostInv ==
     /\ (R.host.k = "domain" => ~EndsInNumber(R.host.s))
 
 \* a spelling that ends in a number is an IPv4 address or a failure, never a domain
-NumberMeansV4 == (kind = "v4" /\ ~R.unspec /\ EndsInNumber(LowerStr(sp))) => (~R.ok \/ R.host.k = "ipv4")
+NumberMeansV4 == (Picked /\ kind = "v4" /\ ~R.unspec /\ EndsInNumber(LowerStr(sp))) => (~R.ok \/ R.host.k = "ipv4")
 
-EmitBehaviour == EmitB => PrintT("@@B " \o ToJson([s |-> sp, ok |-> R.ok, h |-> IF R.ok THEN R.host.s ELSE <<>>]))
+EmitBehaviour == (EmitB /\ Picked) => PrintT("@@B " \o ToJson([s |-> sp, ok |-> R.ok, h |-> IF R.ok THEN R.host.s ELSE <<>>]))
 =============================================================================
